@@ -607,6 +607,23 @@ func c12NoIgnoredVerdict(c *Check, fn *ssa.Function) {
 			}
 			res := gateWalk(p, fn, succ, nil, failStart)
 			c.Ob("R12.2", key, !res.Reached, p.Pos(cl.Pos()), "from the failure edge of this verdict no success return is reachable", res.Witness...)
+			// and the test cannot be bypassed: from the call, success is reachable only across the
+			// verdict's pass edge (a short-circuit such as `err != nil && !valid` skips the bool test)
+			theCall := cl
+			passCut := callGates(func(k *ssa.Call, idx int) GateKind {
+				if k != theCall {
+					return NotGate
+				}
+				if isBool {
+					if _, isTuple := theCall.Type().(*types.Tuple); !isTuple || idx == 0 {
+						return GateTrue
+					}
+					return NotGate
+				}
+				return GateErr
+			})
+			res2 := gateWalkFrom(p, fn, cl.Block(), succ, passCut, nil)
+			c.Ob("R12.2", key+":not bypassed", !res2.Reached, p.Pos(cl.Pos()), "from the call, a success return is reachable only across the pass edge of the test of this verdict", res2.Witness...)
 		}
 	}
 }
@@ -728,6 +745,8 @@ func c12Included(c *Check, equal *ssa.Function) {
 	}
 	c.Floor("R12.4", "true returns of Included", n, 1)
 	c12ProofEqual(c)
+	// the proof GetProof hands out / Included compares against is the list retrieve maintains
+	c11ProofList(c, "R12.6")
 }
 
 // c12ProofEqual: blob.Proof.equal is the comparison Included relies on; it must
